@@ -2,7 +2,7 @@
     on the entry.  Only statements here; proofs live in Proofs/QLogFile.v. *)
 From Coq Require Import ZArith List String.
 From AGH Require Import Base.Run Model.QLogFile Model.QLogCodec Model.QLogBytes
-  Proofs.QLogFile Proofs.QLogFileAbsent Proofs.QLogCodec Proofs.QLogCodecLoc Proofs.QLogBytes Proofs.QLogStamp.
+  Proofs.QLogFile Proofs.QLogFileAbsent Proofs.QLogHistory Proofs.QLogCodec Proofs.QLogCodecLoc Proofs.QLogBytes Proofs.QLogStamp.
 Import ListNotations.
 Local Open Scope Z_scope.
 
@@ -329,3 +329,53 @@ Theorem C20_marshalled_file : forall (o : bytes -> Z) me (es : list centry),
   absf o (map encode es) = map (fun e => (blen (encode e), o (slot e sT))) es.
 Proof. exact encoded_file. Qed.
 Print Assumptions C20_marshalled_file.
+
+(** * One reader used for a whole history (round 4)
+
+    [positioned me r exp]: from the state [r] successive ReadNext calls return
+    exactly [exp], then io.EOF.  The clause "a failed seek never mis-positions
+    subsequent reads", for EVERY reader state (in the middle of a run, inside
+    the rotated file, after io.EOF, never positioned), every file contents and
+    every target: whatever seekTS did before it reported an error, the reads
+    that follow are the reads that would have followed without the seek. *)
+Theorem C20_reader_failed_seek_transparent : forall me buf ts (r : reader) res r' exp fuel,
+  0 < me <= buf -> positioned me r exp -> reader_seek_ts me ts r = (res, r') ->
+  res = RNotFound \/ res = ROther -> (length exp < fuel)%nat ->
+  reader_read_all me buf fuel r' = reader_read_all me buf fuel r.
+Proof. exact failed_seek_transparent. Qed.
+Print Assumptions C20_reader_failed_seek_transparent.
+
+(** Any interleaving of SeekStart / seekTS / ReadNext on one reader over
+    non-empty files (each with lines under the limit, non-zero stamps, under
+    2^63 bytes): when every operation is one [hspec] describes (SeekStart; a
+    read; a seek of a stored stamp; of a stamp after the end of a file; of a
+    stamp between two neighbouring lines; of a stamp older than everything),
+    the model's observations are the specified ones: the lines returned
+    between two positionings are the expected descending run, nothing twice,
+    nothing skipped, and failed seeks change nothing. *)
+Theorem C20_reader_history : forall me buf (fs : list qfile),
+  0 < me <= buf -> Forall (file_ok me) fs -> fs <> [] ->
+  forall ops (r : reader) exp bs, files r = fs -> positioned me r exp -> hspec_run fs exp ops bs ->
+  hrun me buf r ops = bs.
+Proof. exact history_correct. Qed.
+Print Assumptions C20_reader_history.
+
+(** The starting point: a reader nobody positioned reads everything but the
+    newest file (newQLogReader leaves all positions at 0). *)
+Theorem C20_reader_unpositioned : forall me (fs : list qfile), fs <> [] -> Forall (lines_ok me) fs ->
+  files (new_reader fs) = fs /\ positioned me (new_reader fs) (all_rev_upto (length fs - 1) fs).
+Proof. exact new_reader_positioned. Qed.
+Print Assumptions C20_reader_unpositioned.
+
+Example C20_reader_history_example :
+  let old := [(5, 1); (4, 3)] in
+  let cur := [(5, 11); (7, 13); (3, 15)] in
+  let fs := [old; cur] in
+  Forall (file_ok 8) fs /\
+  hrun 8 800 (new_reader fs)
+       [HStart; HRead; HSeek 0; HRead; HSeek 12; HRead; HRead; HSeek 2; HRead; HSeek 5; HRead; HSeek 3; HRead; HRead; HRead]
+  = [OStart; ORead (Some (1, 14, 3)); OSeek RNotFound; ORead (Some (1, 6, 7)); OSeek RNotFound;
+     ORead (Some (1, 0, 5)); ORead (Some (0, 6, 4)); OSeek RNotFound; ORead (Some (0, 0, 5));
+     OSeek RFellBack; ORead (Some (1, 14, 3)); OSeek RFound; ORead (Some (0, 6, 4)); ORead (Some (0, 0, 5)); ORead None].
+Proof. exact history_example. Qed.
+Print Assumptions C20_reader_history_example.
